@@ -180,3 +180,42 @@ Example ex_race :
   enq s = [(7, 3, 1)] /\ present s = false /\ log s = [DErr; DOk; DNotFound] /\ retries s = 1%nat /\
   wget s 2 = WGot.
 Proof. vm_compute. repeat split. Qed.
+
+(* ---------- CLI under faults: for ALL answer scripts ---------- *)
+Theorem cli_at_most_one_command i : let r := cli_invoke i in
+  (length (r_new r) <= 1)%nat /\ (r_posts r <= 1)%nat /\
+  (forall c, In c (r_new r) -> [c] = cli_create (i_verb i) (i_ns i) (i_target i)) /\
+  (r_ok r = true -> i_get i = GOk /\ r_new r = cli_create (i_verb i) (i_ns i) (i_target i)) /\
+  (i_get i <> GOk -> r_ok r = false /\ r_posts r = 0%nat /\ r_new r = []) /\
+  (i_get i = GOk -> succeeds (hd COk (i_script i)) = false -> r_ok r = false) /\
+  length (r_new r) = length (filter persists (answers (r_posts r) (i_script i))).
+Proof.
+  unfold cli_invoke. destruct (i_get i) eqn:G; simpl.
+  - destruct (hd COk (i_script i)) eqn:H; simpl; repeat split; try done; try lia; intros c [<-|[]]; done.
+  - repeat split; try done; lia.
+  - repeat split; try done; lia.
+Qed.
+
+Lemma law_cli_invocation_holds i : let r := cli_invoke i in
+  law_cli_invocation i (r_ok r) (r_gets r) (r_posts r) (r_new r) = true.
+Proof.
+  unfold law_cli_invocation, cli_invoke. destruct (i_get i) eqn:G; simpl; [|done..].
+  destruct (hd COk (i_script i)) eqn:H; simpl; rewrite ?bool_decide_true; done.
+Qed.
+
+(* every invocation that reported success is executed; nothing else is *)
+Theorem e2e_success_is_executed invs i :
+  In i invs -> r_ok (cli_invoke i) = true ->
+  exists c, cli_create (i_verb i) (i_ns i) (i_target i) = [c] /\ In (ctl_req c) (e2e_requests invs).
+Proof.
+  intros Hin Hok. destruct (cli_at_most_one_command i) as (_&_&_&H&_). destruct (H Hok) as [_ Hn].
+  eexists. split; [reflexivity|]. unfold e2e_requests. apply in_flat_map. exists i. split; [done|].
+  rewrite Hn. simpl. by left.
+Qed.
+
+Theorem e2e_at_most_one_per_invocation invs :
+  (length (e2e_requests invs) <= length invs)%nat.
+Proof.
+  unfold e2e_requests. induction invs as [|i l IH]; simpl; [done|].
+  rewrite app_length, map_length. destruct (cli_at_most_one_command i) as (H&_). simpl in H. lia.
+Qed.
